@@ -53,6 +53,7 @@ inline void log_matrix(RunCtx &ctx, const A &a)
         {
             ctx.log.f64(a(r, c));
             ctx.state.f64(a(r, c));
+            if (RunCtx::dump_values()) std::fprintf(stderr, "VAL %a\n", (double)a(r, c));
         }
 }
 
